@@ -5,6 +5,7 @@ check, keep the replay files it writes (the concrete failing inputs) as corpus/<
 Run by hand after new seeded changes were added; never run by a check.
 """
 import glob, json, os, subprocess, sys
+os.environ["VERIF_EVIDENCE_DIR"] = "/tmp/verif_seed_evidence"
 VERIF = os.path.dirname(os.path.dirname(os.path.abspath(__file__)))
 def sh(cmd, **kw):
     return subprocess.run(cmd, stdout=subprocess.PIPE, stderr=subprocess.STDOUT, **kw)
